@@ -91,3 +91,31 @@ Proof.
   split; [vm_compute; reflexivity|]. repeat split.
 Qed.
 Print Assumptions C10_lossless_refuted.
+
+(* ---- the decoder against an independent RFC 6184 encoder (Spec/Rfc6184.v): any plan of single
+   NAL unit packets, STAP-As of any number of units and FU-A runs cut anywhere (empty fragments
+   included), fed to one H264Packet in either framing and whatever its fragment buffer held,
+   yields exactly the units of the plan, in order ---- *)
+From Coq Require Import Lia.
+From RTP Require Import Spec.Rfc6184 Proofs.C10_Decode.
+
+Theorem C10_decode_rfc : forall avc plan, Forall wf_item plan -> forall stale, exists stale',
+  depack (mkH264Pkt avc stale) (rfc_stream plan)
+  = Ok (mkH264Pkt avc stale', concat (map (prefixed avc) (rfc_units plan))).
+Proof. exact decode_rfc. Qed.
+Print Assumptions C10_decode_rfc.
+
+Example C10_decode_rfc_nonvacuous :
+  let plan := [ISingle [65; 1]; IStapA 96 [[103; 1]; [104]; [6; 5; 5]]; IFua 101 [[]; [1; 2]; []; [3]]] in
+  Forall wf_item plan /\
+  rfc_stream plan = [[65; 1]; [120; 0; 2; 103; 1; 0; 1; 104; 0; 3; 6; 5; 5];
+                     [124; 133]; [124; 5; 1; 2]; [124; 5]; [124; 69; 3]] /\
+  rfc_units plan = [[65; 1]; [103; 1]; [104]; [6; 5; 5]; [101; 1; 2; 3]].
+Proof.
+  split; [|split; reflexivity].
+  repeat (apply Forall_cons || apply Forall_nil).
+  - cbn. lia.
+  - cbn [wf_item]. split; [right; right; right; reflexivity|].
+    repeat (apply Forall_cons || apply Forall_nil); cbn; lia.
+  - cbn. lia.
+Qed.
